@@ -257,4 +257,258 @@ theorem K_step_waitData (c : Config) (s : State) (g : Obs) (i : In) (hl : LegalZ
     refine K_assemble c _ g _ [] _ (by simp) rfl ?_
     simpa [newMarks_eq, rNext, hd] using hK1
 
+
+/-- A cycle in which no packet is kept and the read buffer / PID are untouched. -/
+theorem K_quiet (c : Config) (s s' : State) (g g' : Obs) (i : In) (hd : i.discard = false)
+    (hK : K c s g) (h1 : s'.pid = s.pid) (h2 : s'.r.fill = s.r.fill) (h3 : s'.r.ended = s.r.ended)
+    (h4 : s'.w = wNext c s i) (h5 : g'.hostPid = g.hostPid) (h6 : g'.pkts = g.pkts)
+    (h7 : g'.prod = g.prod ++ (if wen c s i then [(i.sPayload % 256, i.sLast)] else [])) :
+    K c s' g' := by
+  refine K_assemble c s' g g' [] _ (by simp [h6]) h7 ?_
+  rw [h1, h2, h3, h4, h5, newMarks_eq]
+  exact KP_wNext hd hK
+
+theorem K_step_waitSend (c : Config) (s : State) (g : Obs) (i : In) (hl : LegalZlpIn i)
+    (hm : 1 ≤ c.mps) (hJ : J c s g) (hK : K c s g) (hfs : s.fsm = .waitSend) :
+    K c (step c s i).1 (obsStep g (i, (step c s i).2)) := by
+  obtain ⟨⟨hd, hr⟩, hz⟩ := hl
+  have hcur : g.cur = [] := by simpa [hfs] using hJ.cur
+  have hfirst : s.first = false := by simpa [hfs] using hJ.first
+  simp only [obsStep, obsProd_eq]
+  by_cases ht : inTok i = true
+  · by_cases hf : s.r.fill = 0
+    · -- zero-length packet
+      have hs : (step c s i).1 =
+          { s with
+            fsm := .waitAck, w := wNext c s i, r := { rNext c s i with ended := false }, sendPos := 0 } := by
+        simp [step, hfs, hd, hr, ht, hf]
+      have ho : obsWire g i (step c s i).2 = g.complete [] s.pid := by
+        simp [step, hfs, hd, hr, ht, hf, obsWire, hcur, hfirst]
+      rw [hs, ho]
+      unfold Obs.complete
+      unfold K at hK
+      rw [hf] at hK
+      by_cases hpid : s.pid = g.hostPid
+      · rw [if_pos hpid]
+        refine K_assemble c _ g _ [] _ (by simp) rfl ?_
+        have := KP_wNext (c := c) (s := s) (i := i) hd (hK.dupZlp hm hpid.symm)
+        simpa [newMarks_eq, rNext, hd, hf] using this
+      · rw [if_neg hpid]
+        refine K_assemble c _ g _ [[]] _ rfl rfl ?_
+        have := KP_wNext (c := c) (s := s) (i := i) hd (hK.keepZlp hm (fun h => hpid h.symm))
+        simpa [newMarks_eq, rNext, hd, hf] using this
+    · have hs : (step c s i).1 =
+          { s with
+            fsm := .sendPacket, w := wNext c s i, r := rNext c s i, sendPos := 0, first := true } := by
+        simp [step, hfs, hd, hr, ht, hf]
+      have ho : obsWire g i (step c s i).2 = g := by
+        simp [step, hfs, hd, hr, ht, hf, obsWire]
+      rw [hs, ho]
+      exact K_quiet c s _ g _ i hd hK rfl (by simp [rNext, hd]) (by simp [rNext, hd]) rfl rfl rfl rfl
+  · have hs : (step c s i).1 = { s with w := wNext c s i, r := rNext c s i, sendPos := 0 } := by
+      simp [step, hfs, hd, hr, ht]
+    have ho : obsWire g i (step c s i).2 = g := by
+      simp [step, hfs, hd, hr, ht, obsWire]
+    rw [hs, ho]
+    exact K_quiet c s _ g _ i hd hK rfl (by simp [rNext, hd]) (by simp [rNext, hd]) rfl rfl rfl rfl
+
+theorem K_step_sendPacket (c : Config) (s : State) (g : Obs) (i : In) (hl : LegalZlpIn i)
+    (hJ : J c s g) (hK : K c s g) (hfs : s.fsm = .sendPacket) :
+    K c (step c s i).1 (obsStep g (i, (step c s i).2)) := by
+  obtain ⟨⟨hd, hr⟩, hz⟩ := hl
+  obtain ⟨hlt, hrd⟩ := hJ.inv.send hfs
+  have hrl := hJ.inv.rlen
+  have hrf := hJ.inv.rfill
+  have hcur : g.cur = s.r.mem.take s.sendPos := by simpa [hfs] using hJ.cur
+  have hfirst : s.first = decide (s.sendPos = 0) := by simpa [hfs] using hJ.first
+  have hemp : g.cur.isEmpty = decide (s.sendPos = 0) := by
+    rw [hcur]
+    by_cases h0 : s.sendPos = 0
+    · simp [h0]
+    · have : s.r.mem ≠ [] := by
+        intro h; rw [h] at hrl; simp at hrl; omega
+      simp [h0, this]
+  have hnz : (g.cur.isEmpty && !s.first) = false := by
+    rw [hemp, hfirst]; cases decide (s.sendPos = 0) <;> rfl
+  have hpidsel : (if g.cur.isEmpty then s.pid else g.curPid) = s.pid := by
+    rw [hemp]
+    by_cases h0 : s.sendPos = 0
+    · simp [h0]
+    · simp only [h0, decide_false, Bool.false_eq_true, if_false]
+      exact hJ.cpid hfs (by omega)
+  have hsnoc : g.cur ++ [s.r.rdata] = s.r.mem.take (s.sendPos + 1) := by
+    rw [hcur, List.take_add_one, hrd]; rfl
+  have hb : s.sendPos + 1 < 2 ^ bitsFor c.mps := by
+    have := @Nat.lt_log2_self c.mps
+    unfold bitsFor; omega
+  simp only [obsStep, obsProd_eq]
+  by_cases hrdy : i.txReady = true
+  · by_cases hlast : s.sendPos + 1 = s.r.fill
+    · have hs : (step c s i).1 =
+          { s with
+            fsm := .waitAck, w := wNext c s i, r := rNext c s i, sendPos := s.sendPos + 1,
+            first := false } := by
+        simp [step, hfs, hrdy, hlast, hr]
+        rw [← hlast, Nat.mod_eq_of_lt hb]
+      have ho : obsWire g i (step c s i).2 = g.complete (bufBytes s.r) s.pid := by
+        simp only [step, hfs, obsWire, hrdy, hlast, if_true, hnz, Bool.false_eq_true, if_false,
+          beq_self_eq_true, hpidsel, hsnoc, bufBytes]
+      rw [hs, ho]
+      unfold Obs.complete
+      by_cases hpid : s.pid = g.hostPid
+      · rw [if_pos hpid]
+        exact K_quiet c s _ g _ i hd hK rfl (by simp [rNext, hd]) (by simp [rNext, hd]) rfl rfl rfl rfl
+      · rw [if_neg hpid]
+        refine K_assemble c _ g _ [bufBytes s.r] _ rfl rfl ?_
+        have hlen : (bufBytes s.r).length = s.r.fill := by
+          simp [bufBytes]; omega
+        have := KP_wNext (c := c) (s := s) (i := i) hd
+          (KP.keep (bufBytes s.r) hK (fun h => hpid h.symm) (by omega) hrf hlen)
+        simpa [newMarks_eq, rNext, hd] using this
+    · have hs : (step c s i).1 =
+          { s with
+            w := wNext c s i, r := rNext c s i, sendPos := s.sendPos + 1, first := false } := by
+        simp [step, hfs, hrdy, hlast, hr, Nat.mod_eq_of_lt hb]
+      have ho : obsWire g i (step c s i).2 =
+          { g with cur := s.r.mem.take (s.sendPos + 1), curPid := s.pid } := by
+        simp only [step, hfs, obsWire, hrdy, if_true, hnz, Bool.false_eq_true, if_false,
+          hpidsel, hsnoc, beq_iff_eq, hlast]
+      rw [hs, ho]
+      exact K_quiet c s _ g _ i hd hK rfl (by simp [rNext, hd]) (by simp [rNext, hd]) rfl rfl rfl rfl
+  · have hs : (step c s i).1 = { s with w := wNext c s i, r := rNext c s i } := by
+      simp [step, hfs, hrdy, hr]
+    have ho : obsWire g i (step c s i).2 = g := by
+      simp only [step, hfs, obsWire, hrdy, if_true, hnz, Bool.false_eq_true, if_false]
+    rw [hs, ho]
+    exact K_quiet c s _ g _ i hd hK rfl (by simp [rNext, hd]) (by simp [rNext, hd]) rfl rfl rfl rfl
+
+
+theorem K_step_waitAck (c : Config) (s : State) (g : Obs) (i : In) (hl : LegalZlpIn i)
+    (hm : 1 ≤ c.mps) (hJ : J c s g) (hK : K c s g) (hfs : s.fsm = .waitAck) :
+    K c (step c s i).1 (obsStep g (i, (step c s i).2)) := by
+  obtain ⟨⟨hd, hr⟩, hz⟩ := hl
+  have hhp := hJ.wack hfs
+  have ho : obsWire g i (step c s i).2 = g := by
+    simp [step, hfs, obsWire]
+  have hK1 := KP_wNext (c := c) (s := s) (i := i) hd hK
+  simp only [obsStep, obsProd_eq, ho]
+  by_cases ha : ackTaken i = true
+  · by_cases hfu : (s.r.fill == c.mps && s.r.ended) = true
+    · -- follow-up ZLP
+      have hs : (step c s i).1 =
+          (if i.newToken then
+            { s with w := wNext c s i, r := { rNext c s i with fill := 0 }, pid := !s.pid, fsm := .waitSend }
+          else
+            { s with w := wNext c s i, r := { rNext c s i with fill := 0 }, pid := !s.pid, fsm := .waitSend }) := by
+        simp [step, hfs, hd, hr, ha, hz, hfu]
+      rw [hs, ite_self]
+      refine K_assemble c _ g _ [] _ (by simp) rfl ?_
+      have := KP_wNext (c := c) (s := s) (i := i) hd (KP.follow hK hhp hfu)
+      simpa [newMarks_eq, rNext, hd] using this
+    · have hnf : (s.r.fill == c.mps && s.r.ended) = false := by simpa using hfu
+      by_cases hsw : (!inReady c s || packetReady c s i) = true
+      · -- the other buffer is ready: swap
+        have hs : (step c s i).1 =
+            (if i.newToken then
+              { s with
+                fsm := .waitSend, toggle := !s.toggle, pid := !s.pid,
+                w := { rNext c s i with fill := 0, ended := false }, r := wNext c s i }
+            else
+              { s with
+                fsm := .waitSend, toggle := !s.toggle, pid := !s.pid,
+                w := { rNext c s i with fill := 0, ended := false }, r := wNext c s i }) := by
+          simp [step, hfs, hd, hr, ha, hz, hnf, hsw]
+        rw [hs, ite_self]
+        refine K_assemble c _ g _ [] _ (by simp) rfl ?_
+        have hpos := swap_fill_pos c s i hd hm hK.wpos hsw
+        have := hK1.swap hhp hnf hpos
+        simpa [newMarks_eq] using this
+      · -- nothing to send: back to WAIT_FOR_DATA (or WAIT_TO_SEND on a coinciding token)
+        have hs : (step c s i).1 =
+            (if i.newToken then
+              { s with w := wNext c s i, r := { rNext c s i with fill := 0 }, fsm := .waitSend }
+            else
+              { s with w := wNext c s i, r := { rNext c s i with fill := 0 }, fsm := .waitData }) := by
+          simp [step, hfs, hd, hr, ha, hz, hnf, hsw]
+        have := KP_wNext (c := c) (s := s) (i := i) hd (KP.clear hm hK hhp hnf)
+        rw [hs]
+        split <;>
+        · refine K_assemble c _ g _ [] _ (by simp) rfl ?_
+          simpa [newMarks_eq, rNext, hd] using this
+  · have hs : (step c s i).1 =
+        (if i.newToken then { s with w := wNext c s i, r := rNext c s i, fsm := .waitSend }
+         else { s with w := wNext c s i, r := rNext c s i }) := by
+      simp [step, hfs, hd, hr, ha]
+    rw [hs]
+    split <;>
+    · exact K_quiet c s _ g _ i hd hK rfl (by simp [rNext, hd]) (by simp [rNext, hd]) rfl rfl rfl rfl
+
+theorem K_step (c : Config) (s : State) (g : Obs) (i : In) (hl : LegalZlpIn i) (hm : 1 ≤ c.mps)
+    (hJ : J c s g) (hK : K c s g) : K c (step c s i).1 (obsStep g (i, (step c s i).2)) := by
+  cases hfs : s.fsm with
+  | waitData => exact K_step_waitData c s g i hl hm hJ hK hfs
+  | waitSend => exact K_step_waitSend c s g i hl hm hJ hK hfs
+  | sendPacket => exact K_step_sendPacket c s g i hl hJ hK hfs
+  | waitAck => exact K_step_waitAck c s g i hl hm hJ hK hfs
+
+theorem JK_run (c : Config) (hm : 1 ≤ c.mps) (ins : List In) (henv : LegalZlpEnv ins) (s : State)
+    (g : Obs) (hJ : J c s g) (hK : K c s g) :
+    J c (runState c s ins) (observeFrom g (trace c s ins)) ∧
+    K c (runState c s ins) (observeFrom g (trace c s ins)) := by
+  induction ins generalizing s g with
+  | nil => exact ⟨hJ, hK⟩
+  | cons i is ih =>
+    simp only [runState, trace, observeFrom, List.foldl_cons]
+    have hl := henv i (by simp)
+    exact ih (fun j hj => henv j (by simp [hj])) _ _ (J_step c s g i hl.1 hJ) (K_step c s g i hl hm hJ hK)
+
+/-- The bookkeeping invariant holds at every reachable cycle. -/
+theorem K_reachable (c : Config) (hm : 1 ≤ c.mps) (ins : List In) (henv : LegalZlpEnv ins) :
+    K c (runState c (init c) ins) (observe (trace c (init c) ins)) :=
+  (JK_run c hm ins henv _ _ (J_init c) (K_init c)).2
+
+/-- **Every transfer ends with a short packet or a zero-length packet.**  For every max packet size
+≥ 1 and every history with `discard = reset_sequence = 0` and `generate_zlps = 1` (any producer timing,
+`last` marks and `flush` requests, any tokens, lost/late/foreign ACKs, any `ready` schedule), at every
+cycle, the packets the host has kept line up with the producer's `last` marks as `endsOk` demands: each
+kept packet is ≤ mps bytes of the producer's stream; a `last`-marked byte is always the final byte of its
+packet; when that packet is a full `mps` bytes the very next packet the host keeps is a zero-length
+packet (so a short packet or a ZLP precedes any data of the next transfer); and the host keeps a
+zero-length packet only in that situation. -/
+theorem transfer_ends_short_or_zlp (c : Config) (hm : 1 ≤ c.mps) (ins : List In)
+    (henv : LegalZlpEnv ins) :
+    endsOk c.mps ((produced (trace c (init c) ins)).map (·.2)) (hostPackets (trace c (init c) ins))
+      = true :=
+  (K_reachable c hm ins henv).ok
+
+
+/-! ## Non-vacuity
+
+mps = 2: the transfer `5, 6(last)` fills a max-size packet, so after its ACK a ZLP follows; then the
+one-byte transfer `7(last)` goes out as a short packet.  And the checker does discriminate: without the
+ZLP, or with a `last` mark inside a packet, or with a ZLP that is not due, it says `false`. -/
+
+def exL (rfr nt ack v : Bool) (p : Nat) (l : Bool) : In :=
+  ⟨true, true, rfr, nt, ack, v, p, l, false, false, true, false, false, true⟩
+
+def exZlpHist : List In :=
+  [exL false false false true 5 false, exL false false false true 6 true,      -- producer: 5, 6(last)
+   exL false true false false 0 false, exL true false false false 0 false,      -- IN token
+   exL false false false false 0 false, exL false false false false 0 false,    -- 5, 6 go out
+   exL false false true false 0 false,                                          -- ACK: ZLP staged
+   exL false true false false 0 false, exL true false false false 0 false,      -- IN token: ZLP
+   exL false false true false 0 false,                                          -- ACK
+   exL false false false true 7 true,                                           -- producer: 7(last)
+   exL false true false false 0 false, exL true false false false 0 false,      -- IN token
+   exL false false false false 0 false]                                         -- 7 goes out
+
+example : LegalZlpEnv exZlpHist := by decide
+example : hostPackets (trace ⟨2⟩ (init ⟨2⟩) exZlpHist) = [[5, 6], [], [7]]
+    ∧ (produced (trace ⟨2⟩ (init ⟨2⟩) exZlpHist)).map (·.2) = [false, true, true] := by decide +kernel
+example : endsOk 2 [false, true, true] [[5, 6], [], [7]] = true := by decide
+example : endsOk 2 [false, true, true] [[5, 6], [7]] = false := by decide      -- the ZLP is missing
+example : endsOk 2 [true, false] [[5, 6]] = false := by decide                 -- `last` inside a packet
+example : endsOk 2 [false, false, true] [[5, 6], [], [7]] = false := by decide -- a ZLP that is not due
+example : endsOk 2 [false, false, true] [[5], [6, 7]] = true := by decide      -- short packet by `flush`
+
 end LunaVerif.InXfer
